@@ -338,7 +338,10 @@ def rule_e(prog, rep):
     ip = crate.fn(f'{EL}::is_part_of_cluster')
     ib = Bindings(crate, ip)
     cmps = [nd for nd, a in crate.walk_fn(ip) if nd.get('k') == 'binary' and nd.get('op') == 'Eq']
-    if len(cmps) >= 2 and any('peer_nodes' in x for nd, a in crate.walk_fn(ip) if nd.get('k') == 'for' for x in ib.origins(nd['iter'])):
+    over_loop = any('peer_nodes' in x for nd, a in crate.walk_fn(ip) if nd.get('k') == 'for' for x in ib.origins(nd['iter']))
+    over_any = any(nd.get('k') == 'call' and short(callee(nd)) in ('any', 'contains') and any('peer_nodes' in x for x in ib.origins(nd['args'][0]))
+                   for nd, a in crate.walk_fn(ip))
+    if len(cmps) >= 2 and (over_loop or over_any):
         rep.ok('C19.e', 'is_part_of_cluster', ip.loc, 'own id or one of self.peers.peer_nodes()')
     else:
         rep.violation('C19.e', 'is_part_of_cluster', ip.loc, 'membership is not decided by the configured peers', key='C19.e/is_part_of_cluster')
